@@ -78,6 +78,8 @@ Inductive code :=
 | Inp (c : icfg) (body : code) (args : list expr) (kwargs : list (str * expr)) (k : code)
 | Out (c : ocfg) (body : code) (args : list expr) (kwargs : list (str * expr)) (k : code)
 | Try (c h : code)                       (* try: c  except Exception: h *)
+| Spawn (c : code) (k : code)            (* t = Thread(target=c); t.start(); t.join(); k   - a worker thread inside the operation;
+                                            whatever c returns or raises dies with the thread *)
 | Discard (k : code)                     (* tape_recorder.discard_recording() *)
 | Force (k : code)                       (* tape_recorder.force_sample_recording() *)
 | Enable (b : bool) (k : code)           (* tape_recorder.enable_recording() / disable_recording() *)
